@@ -119,6 +119,29 @@ func printPackage(cp *compiledPackage) (map[string]string, error) {
 	return out, nil
 }
 
+// printBundle compiles every package of the bundle (one PackageSet) and prints every compiled file.
+func printBundle(mb *memBundle) (map[string]string, error) {
+	ps, err := protobuild.NewPackageSet(noDeps{}, mb)
+	if err != nil {
+		return nil, err
+	}
+	out := map[string]string{}
+	for _, pkg := range mb.packages {
+		cp, err := compileOn(ps, pkg)
+		if err != nil {
+			return nil, err
+		}
+		printed, err := printPackage(cp)
+		if err != nil {
+			return nil, err
+		}
+		for p, t := range printed {
+			out[p] = t
+		}
+	}
+	return out, nil
+}
+
 func init() {
 	// developer probe (not a registered check): compile the j5s files named in -args file=<path>[,pkg=<pkg>]
 	Registry["PROBE"] = func(r *rt.Runner) {
